@@ -671,6 +671,10 @@ func (b *builder) small() {
 		mkFunc("RepI", "add", "rep", scalar(KInt), Param{Name: "pa", Type: scalar(KInt)}, Param{Name: "pb", Out: true, Type: scalar(KString)}),
 		mkFunc("RepI", "get", "rep", structT("RepI", "P"), Param{Name: "pa", Type: structT("RepI", "P")}, Param{Name: "pb", Out: true, Type: vec(structT("RepI", "P"))},
 			Param{Name: "pc", Type: mp(scalar(KString), unsigned(KInt))}),
+		// several out parameters, with and without a return value and in parameters
+		mkFunc("RepI", "split", "rep", nil, Param{Name: "pa", Type: scalar(KInt)}, Param{Name: "lo", Out: true, Type: scalar(KInt)}, Param{Name: "hi", Out: true, Type: scalar(KInt)}),
+		mkFunc("RepI", "names", "rep", nil, Param{Name: "first", Out: true, Type: scalar(KString)}, Param{Name: "digits", Out: true, Type: vec(scalar(KInt))}, Param{Name: "last", Out: true, Type: scalar(KString)}),
+		mkFunc("RepI", "both", "rep", scalar(KLong), Param{Name: "oa", Out: true, Type: structT("RepI", "P")}, Param{Name: "ob", Out: true, Type: scalar(KString)}),
 	}})
 
 	f = b.newFile("rep_multi.tars", "small", "rep_struct.tars")
